@@ -5,15 +5,15 @@ from oracle_util import *  # noqa
 from protocol import from_real
 
 ID = "C06"
-LEAN_MODULE = None
+LEAN_MODULE = "SCoda.Props.C06"
 CLAUSES = [
-    ("every remaining note has a duration from the list", None),
-    ("onset, pitch, channel and velocity of every remaining note unchanged", None),
-    ("non-note events untouched", None),
-    ("notes of the same channel and pitch do not overlap", None),
-    ("with extension disabled no note gets longer", None),
-    ("each kept note gets an allowed duration closest to its original among those that fit", None),
-    ("a note is removed only when no allowed duration fits", None),
+    ("every remaining note-off lies an allowed duration after a remaining note-on of its key; the operation never fails", ["SCoda.C06.durations", "SCoda.C06.total", "SCoda.C06.pairings_twoEl"]),
+    ("onset, pitch, channel and velocity of every remaining note unchanged (every note-on of the result is an unchanged input note-on)", ["SCoda.C06.onsets_kept"]),
+    ("non-note events untouched; result time-sorted", ["SCoda.C06.others_same", "SCoda.C06.sorted_out"]),
+    ("local rule per note: the new duration fits before the next onset of its key (no overlap), is not longer than the original when extension is disabled, "
+     "is closest to the original among the allowed values that fit, and the note is removed exactly when none fits",
+     ["SCoda.C06.qnlChannel_spec", "SCoda.C06.validDurations_spec", "SCoda.C06.nearest_spec"]),
+    ("glue: on a sorted well-formed list the per-channel pairings are its notes in order, and the notes of the rebuilt, re-sorted list are the output pairings", None),
 ]
 RULE = ("well-formed multi-channel note sets (<=8 notes, back-to-back repeated pitches, very short notes) x value lists "
         "(defaults, lists with duplicates, single values) x extension on/off; non-trivial = some note's duration not in the list")
